@@ -126,7 +126,7 @@ func genHist(rng *rand.Rand, nops int) hist {
 }
 
 type stats struct {
-	ops, dumps, pairs, withdrawals, sharedReleases, maxInUse int
+	ops, dumps, pairs, withdrawals, opWithdrawals, sharedReleases, maxInUse int
 	sharedID, unhashedPair                                   bool
 }
 
@@ -174,6 +174,7 @@ func runHist(h hist) (res result) {
 	type ann struct {
 		id uint32
 	}
+	opAnn := map[[2]int]uint32{}       // (prefix index, shape) -> identifier its announcement carried
 	announced := map[string][]uint32{} // (prefix, content) -> identifiers of outstanding announcements
 	recSeen := 0
 	idUsers := map[uint32]int{} // model: identifier -> number of stored (prefix, path) using it, from the dump
@@ -197,7 +198,26 @@ func runHist(h hist) (res result) {
 			viol("exhausted", vf.F("after", o.K), fmt.Sprintf("op %d add %s shape %d: AddPath returned %q with %d identifiers in use", i, h.Universe[o.Pfx], o.Shape, err, len(idUsers)))
 		}
 		// monitor 2: the client's view
-		for _, e := range out.Rec.Since(recSeen) {
+		evs := out.Rec.Since(recSeen)
+		// 2b: the withdrawal that RemovePath(prefix, path X) causes carries the identifier X itself was announced with
+		// (not that of another stored path of the prefix that merely ties with X in best path selection)
+		opKey := [2]int{o.Pfx, o.Shape}
+		if o.K == "add" {
+			if len(evs) == 1 && evs[0].Kind == "add" {
+				opAnn[opKey] = evs[0].PathID
+			}
+		} else if want, ok := opAnn[opKey]; ok {
+			delete(opAnn, opKey)
+			for _, e := range evs {
+				if e.Kind == "remove" {
+					st.opWithdrawals++
+					if e.PathID != want {
+						viol("withdraw-id", vf.F("of", "another-path"), fmt.Sprintf("op %d %+v: the withdrawal caused by removing %s shape %d carries identifier %d (%s); that path was announced with identifier %d", i, o, h.Universe[o.Pfx], o.Shape, e.PathID, e.Attr.Short(), want))
+					}
+				}
+			}
+		}
+		for _, e := range evs {
 			recSeen++
 			key := fmt.Sprintf("%s|%x", e.Pfx.Key(), e.Hash0)
 			switch e.Kind {
@@ -388,6 +408,7 @@ func main() {
 			r.Count("histories", 1)
 			r.Count("path_pairs_compared", st.pairs)
 			r.Count("withdrawals_checked", st.withdrawals)
+			r.Count("withdrawals_matched_to_the_removed_path", st.opWithdrawals)
 			r.Count("withdrawals_while_identifier_shared", st.sharedReleases)
 			mu.Lock()
 			if st.maxInUse > maxInUse {
